@@ -13,6 +13,7 @@ pub mod shape;
 pub mod suite_bytes;
 pub mod suite_emplace;
 pub mod suite_ops;
+pub mod suite_portable;
 pub mod suite_io;
 pub mod suite_io_gen;
 
